@@ -17,9 +17,10 @@ from . import c02
 from . import c02_tree as T
 from . import c08_hist as H
 from . import c08_ns as NS
+from . import c08_upd as U
 
 PROPERTY = 'C08'
-LEAN_TARGETS = ['CpProofs.C08', 'CpProofs.C08Hist', 'CpProofs.C08Ns', 'drv_c08']
+LEAN_TARGETS = ['CpProofs.C08', 'CpProofs.C08Hist', 'CpProofs.C08Ns', 'CpProofs.C08Upd', 'drv_c08']
 DRIVER = 'drv_c08'
 THEOREMS = [
     'CpProofs.C08.get_append',
@@ -62,6 +63,14 @@ THEOREMS = [
     'CpProofs.C08.C08_error_page_ns',
     'CpProofs.C08.C08_engine_ns_plugin',
     'CpProofs.C08.C08_server_ns',
+    'CpProofs.C08.C08_env_expansion',
+    'CpProofs.C08.C08_env_absent',
+    'CpProofs.C08.C08_env_unknown',
+    'CpProofs.C08.C08_update_global_section',
+    'CpProofs.C08.C08_update_file_eq_dict',
+    'CpProofs.C08.C08_update_later_wins',
+    'CpProofs.C08.C08_env_live_all',
+    'CpProofs.C08.C08_env_live_production',
 ]
 LEVEL = 'proof'
 TECHNIQUE = ('Lean 4 proof: set_conf over the object trail refined to a level-by-level declarative merge (induction over the '
@@ -1226,6 +1235,9 @@ def check_any(ctx, cases, compare_model=True):
     eff = [c for c in cases if 'nseff' in c]
     if eff:
         NS.check_eff_cases(ctx, eff, compare_model)
+    upd = [c for c in cases if 'upd' in c]
+    if upd:
+        U.check_upd_cases(ctx, upd, compare_model)
     if conf:
         check_config_cases(ctx, conf, compare_model)
     if fc:
@@ -1254,6 +1266,7 @@ def _worker(args):
     H.check_hist_cases(sub, [H.gen_hist_case(sub.rng, i) for i in range(n // 2)])
     NS.check_ns_cases(sub, [NS.gen_ns_case(sub.rng) for _ in range(n * 2)])
     NS.check_eff_cases(sub, [NS.gen_eff_case(sub.rng) for _ in range(n)])
+    U.check_upd_cases(sub, [U.gen_upd_case(sub.rng) for _ in range(n // 2)])
     check_fc_cases(sub, [gen_fc_case(sub.rng) for _ in range(n * 4)])
     check_literal_cases(sub, gen_literal_cases(sub.rng, n * 4))
     return _export(sub)
@@ -1311,6 +1324,7 @@ def run(ctx):
         H.check_hist_cases(ctx, [H.gen_hist_case(ctx.rng, i) for i in range(300)])
         NS.check_ns_cases(ctx, [NS.gen_ns_case(ctx.rng) for _ in range(2000)])
         NS.check_eff_cases(ctx, [NS.gen_eff_case(ctx.rng) for _ in range(1200)])
+        U.check_upd_cases(ctx, [U.gen_upd_case(ctx.rng) for _ in range(600)])
         check_fc_cases(ctx, [gen_fc_case(ctx.rng) for _ in range(3000)])
         check_literal_cases(ctx, gen_literal_cases(ctx.rng, 2500))
         return
@@ -1338,6 +1352,7 @@ def search(ctx, around=None):
     H.check_hist_cases(ctx, [H.gen_hist_case(ctx.rng, i) for i in range(600)], compare_model=False)
     NS.check_ns_cases(ctx, [NS.gen_ns_case(ctx.rng) for _ in range(3000)], compare_model=False)
     NS.check_eff_cases(ctx, [NS.gen_eff_case(ctx.rng) for _ in range(2000)], compare_model=False)
+    U.check_upd_cases(ctx, [U.gen_upd_case(ctx.rng) for _ in range(1500)], compare_model=False)
     check_fc_cases(ctx, [gen_fc_case(ctx.rng) for _ in range(5000)], compare_model=False)
     check_literal_cases(ctx, gen_literal_cases(ctx.rng, 5000), compare_model=False)
 
